@@ -42,7 +42,7 @@ func (fg *FnGen) step(fr *Frame, b *ssa.BasicBlock, ins ssa.Instruction, st *Sta
 		if def == nil {
 			def = ti.zeroOf(x.Type())
 		}
-		if def.Kind == KApp && def.Op == "ite" {
+		if def.Kind == KApp && def.Op == "ite" && !fg.noDefs {
 			c := Const(fmt.Sprintf("%s%s", fr.prefix, x.Name()), ti.sortOf(x.Type()))
 			fg.assume(Eq(c, def))
 			def = c
@@ -116,7 +116,9 @@ func (fg *FnGen) step(fr *Frame, b *ssa.BasicBlock, ins ssa.Instruction, st *Sta
 		fr.addrs[x] = &Addr{Kind: "field", Base: base, Var: name, Sort: elemSort(srt), GoTyp: ft}
 		// pointer value: for embedded structs the sub-object reference, else an opaque address
 		fr.vals[x] = App("fld:"+name, SInt, base)
-		fg.assumeIf(reach, Gt(fr.vals[x], IntLit(0)))
+		if !fg.noDefs {
+			fg.assumeIf(reach, Gt(fr.vals[x], IntLit(0)))
+		}
 		return st
 	case *ssa.IndexAddr:
 		idx := fg.val(fr, x.Index)
@@ -893,8 +895,13 @@ func (fg *FnGen) next(fr *Frame, x *ssa.Next, st *State, reach *Term) *State {
 			// a yielded key is in the map and the value is the mapped value
 			m := fg.val(fr, r.X)
 			dom, val := fg.mapVars(mt, st)
-			if dom != nil && tup[1].Sort != "invalid" {
-				fg.assumeIf(And(reach, tup[0]), And(Select(Select(dom, m), tup[1]), Eq(tup[2], Select(Select(val, m), tup[1]))))
+			ks, _ := splitArraySort(elemSort(dom.Sort))
+			if tup[1].Sort == ks {
+				fact := Select(Select(dom, m), tup[1])
+				if tup[2].Sort == elemSort(elemSort(val.Sort)) {
+					fact = And(fact, Eq(tup[2], Select(Select(val, m), tup[1])))
+				}
+				fg.assumeIf(And(reach, tup[0]), fact)
 			}
 		}
 	}
